@@ -94,7 +94,7 @@ func runRace(in input) lib.Case {
 			}()
 			<-start
 			spin(s)
-			_, res.err = e.r.Send(e.peers[p].si, &Msg{ID: 200000 + i})
+			_, res.err = e.r.Send(e.peers[p].si, &Msg{ID: 2000 + i})
 		}(i)
 	}
 	for i := 0; i < rc.Inbound; i++ {
@@ -124,7 +124,7 @@ func runRace(in input) lib.Case {
 	}
 	for i := 0; i < rc.Deliver && npre > 0; i++ {
 		c := e.conns[i%npre]
-		id := 300000 + i
+		id := 3000 + i
 		msgConn[id] = c.idx
 		s := next()
 		wg.Add(1)
